@@ -168,7 +168,7 @@ def _format_resname(res):
     out = ''
     if chain:
         out += chain + '-'
-    resname = res.get('resname')
+    resname = res.get('resname', '')
     out += resname
     if resname and resname[-1].isdigit():
         out += '#'
@@ -254,17 +254,13 @@ def annotate_modifications(molecule, modifications, mutations, resspec_counts):
                for key in 'chain resid resname insertion_code'.split()}
     for mutmod, key, library in associations:
         for resspec, mod in mutmod:
-            extra = False
             mod_found = _resiter(mod, residue_graph, resspec, library, key, molecule)
-            if not mod_found:
-                #if no mod found, return that there's a problem
-                resspec_counts.append({'success': False,
-                                       'mutmod': _format_resname(resspec),
-                                       'post': mod,})
-                extra = True
-    #return that everything's fine by default
-    if not extra:
-        resspec_counts.append({'success': True})
+            # Record for every request whether it was found in this molecule,
+            # so requests that match nowhere in the system can be reported.
+            resspec_counts.append({'success': mod_found,
+                                   'key': key,
+                                   'mutmod': _format_resname(resspec),
+                                   'post': mod,})
 
 class AnnotateMutMod(Processor):
     """
@@ -297,8 +293,14 @@ class AnnotateMutMod(Processor):
         annotate_modifications(molecule, self.modifications, self.mutations, self.resspec_counts)
         return molecule
     def run_system(self, system):
+        self.resspec_counts = []
         super().run_system(system)
-        _exit = sum([i['success'] for i in self.resspec_counts])
-        if _exit == 0:
-            LOGGER.warning('Residue specified by "{}" for mutation "{}" not found',
-                           self.resspec_counts[0]['mutmod'], self.resspec_counts[0]['post'])
+        # A request is fine if it matched in at least one molecule.
+        found = {}
+        for entry in self.resspec_counts:
+            request = (entry['key'], entry['mutmod'], entry['post'])
+            found[request] = found.get(request, False) or entry['success']
+        for (key, mutmod, post), success in found.items():
+            if not success:
+                LOGGER.warning('Residue specified by "{}" for {} "{}" not found',
+                               mutmod, key, post)
